@@ -172,6 +172,7 @@ func (t *Transaction) With(name string, readOnly bool, createFn func() (Cachable
 	if existingCache, ok := t.manager.sharedCaches[name]; ok {
 		existingCache.lastAccessed = time.Now()
 		t.manager.mu.Unlock()
+		verifPoint("with:found", name)
 		/* Bbolt allows multiple read transactions to be open at the same time
 		 * but only a single write. For example, if there is an insert operation,
 		 * we should still be able to search. Now, we need to make sure the cache
@@ -213,6 +214,7 @@ func (t *Transaction) With(name string, readOnly bool, createFn func() (Cachable
 					// one else will benefit from this cache but it's better than
 					// waiting.
 					log.Debug().Str("name", name).Msg("Creating read only cold cache")
+					verifPoint("with:reader-goes-cold", name)
 					freshCachable, err := createFn()
 					if err != nil {
 						t.failed.Store(true)
@@ -272,11 +274,13 @@ func (t *Transaction) With(name string, readOnly bool, createFn func() (Cachable
 			log.Debug().Str("name", name).Bool("readOnly", readOnly).Msg("Reusing cache")
 			defer t.manager.checkAndPrune()
 		}
+		verifPoint("with:before-callback", name)
 		if err := f(cacheToUse.item); err != nil {
 			/* Something went wrong, we'll scrap the cache and delete it from the
 			 * manager. */
 			t.failed.Store(true)
 			cacheToUse.scrapped = true
+			verifPoint("with:callback-failed", name)
 			t.manager.mu.Lock()
 			delete(t.manager.sharedCaches, name)
 			t.manager.mu.Unlock()
@@ -315,6 +319,7 @@ func (t *Transaction) With(name string, readOnly bool, createFn func() (Cachable
 	// By unlocking after we have the cache lock, we guarantee that the cache
 	// will not be scrapped by another goroutine.
 	t.manager.mu.Unlock()
+	verifPoint("with:before-callback-new", name)
 	if err := f(s.item); err != nil {
 		t.failed.Store(true)
 		s.scrapped = true
@@ -344,6 +349,7 @@ func (t *Transaction) Commit(fail bool) {
 			delete(t.manager.sharedCaches, name)
 		}
 		log.Debug().Str("name", name).Bool("failed", failed).Msg("Committing cache")
+		verifPoint("commit:before-unlock", name)
 		// Recall that we should be holding all the write locks to these caches within the transaction
 		s.mu.Unlock()
 	}
